@@ -98,6 +98,11 @@ def check_slot(ctx):
                       "tree nodes are removed only on the removal paths", b.where(x))
     ctx.check(n == 2, inst, "anchor", "-", "SkipMap::insert sites on the ordered index (expected 2, found %d)" % n, None)
     R.callers_within(ctx, inst, "FeoxStore::remove_from_tree", ["ttl_sweep::sample_and_expire_batch"], floor=1)
+    from rules.common import check_forwarder
+    check_forwarder(ctx, inst, "FeoxStore::insert_into_tree", "SkipMap::insert", [(2, 1), (3, 2)], "the node is created under the given key with the given record")
+    check_forwarder(ctx, inst, "FeoxStore::remove_from_tree", "SkipMap::remove", [(2, 1)], "the node removed is the given key's")
+    check_forwarder(ctx, inst, "FeoxStore::publish_to_tree", "SkipMap::get", [(2, 1)], "the slot swapped is the given key's")
+    check_forwarder(ctx, inst, "FeoxStore::publish_to_tree", "TreeSlot::store", [(3, 1)], "the slot receives the given record")
     body = ctx.fn("FeoxStore::publish_to_tree", inst)
     if body is not None:
         g = ctx.sites(body, R.call("SkipMap::get"), inst, exact=1)
